@@ -3,7 +3,8 @@
 //@ kind W
 //@ def quick NCH=4 NALPHA=3
 //@ def thorough NCH=6 NALPHA=3
-//@ cbmc all --unwind 8 --unwinding-assertions
+//@ cbmc quick --unwind 6 --unwinding-assertions
+//@ cbmc thorough --unwind 8 --unwinding-assertions
 //@ entry h_cm_simple
 //@ note W: complete for every child sequence of length <= NCH over an alphabet of NALPHA names (ids), every fOp value, fDTD true/false, validateContent and validateContentSpecial
 //@ note names are ids (contracts/cm_common.inc): raw name, local part and namespace id are independent inputs; SubstitutionGroupComparator::isEquivalentTo is an arbitrary harness-chosen relation on expanded names
